@@ -204,6 +204,8 @@ pub struct Server {
 }
 
 static NEXT_SRV_PORT: AtomicU16 = AtomicU16::new(0);
+/// servers whose thread did not end within 4 s of the stop signal
+pub static SERVERS_NOT_STOPPED: std::sync::atomic::AtomicU64 = std::sync::atomic::AtomicU64::new(0);
 
 fn port_base() -> u16 {
     // per-process ranges so that checks can run side by side
@@ -253,7 +255,8 @@ impl Server {
                         _ = rx => {}
                     }
                 });
-                drop(rt);
+                // a task that never yields would make a plain drop of the runtime wait for ever
+                rt.shutdown_timeout(Duration::from_millis(500));
             });
             let th = match th {
                 Ok(t) => t,
@@ -307,7 +310,17 @@ impl Server {
             let _ = tx.send(());
         }
         if let Some(t) = self.thread.take() {
-            let _ = t.join();
+            // bounded: a server whose runtime thread is pinned by a task that never yields cannot stop; the
+            // thread is left behind (the process exits at the end of the run) and the fact is counted
+            let t0 = Instant::now();
+            while !t.is_finished() && t0.elapsed() < Duration::from_secs(4) {
+                std::thread::sleep(Duration::from_millis(2));
+            }
+            if t.is_finished() {
+                let _ = t.join();
+            } else {
+                SERVERS_NOT_STOPPED.fetch_add(1, Ordering::SeqCst);
+            }
         }
     }
 }
